@@ -5,6 +5,7 @@ From ClapModel Require Import Parse.Cmd Parse.Build Parse.Valid Parse.Matcher Pa
 From ClapModel Require Import ParseProofs.Totality ParseProofs.Actions ParseProofs.Unparse ParseProofs.UnparseTop ParseProofs.UnparseTrail
                               ParseProofs.UnparseTree ParseProofs.KindSound ParseProofs.SourcesLine ParseProofs.SourcesDefaults ParseProofs.Globals ParseProofs.SourcesLineGlobals ParseProofs.SourcesLineExamples.
 From ClapModel Require Import Sources.Present ParseProofs.Sources Gen.ActionDefaults.
+From ClapModel Require Import ParseProofs.PendingFlush ParseProofs.SourcesPending.
 From Coq Require Import ZArith List.
 From RecordUpdate Require Import RecordSet.
 Import RecordSetNotations.
@@ -605,3 +606,80 @@ Theorem C06_defaults_unchanged_nonvacuous :
      ([104], Some SDefault, [[s_false]]); ([107], Some SDefault, [[[90]]]); ([110], Some SDefault, [[[78]]])].
 Proof. exact SrcEx.ex_unchanged. Qed.
 Print Assumptions C06_defaults_unchanged_nonvacuous.
+
+(** ** the occurrence still being collected when an error is raised, under [ignore_errors]
+    (repaired statement order of [Parser::get_matches_with]: [resolve_pending], [add_env], [add_defaults],
+    each result dropped; proofs in ParseProofs/SourcesPending.v, pre-repair function in ParseProofs/PendingFlush.v) *)
+
+(** For EVERY command, token list and start state: the state handed back with an error under [ignore_errors]
+    has no pending occurrence, and differs from a state [s1] without pending occurrence only by entries the
+    defaults phase APPENDED -- each labelled DefaultValue, not a group, for an argument of the level that had no
+    entry in [s1]; every entry of [s1] (command line, environment, groups) is handed back exactly as it was.
+    [s1] is what the command line and the environment left: either the error is the command line's and the
+    three dropped phases ran in the repaired order (pending occurrence first), each from the state the previous
+    one left, or the command line was accepted and the error is that of the first later phase that failed.
+    Hence no value that came from a default sits in an entry labelled CommandLine or EnvVariable. *)
+Theorem C06_ignore_errors_pending_flushed : forall fuel' c toks st0 e st,
+  is_set s_ignore_errors c = true ->
+  get_matches_with (S fuel') c toks st0 = RErr e st ->
+  mt_pending (mt st) = None
+  /\ exists s1, mt_pending (mt s1) = None
+     /\ ((exists news, mt_args (mt st) = mt_args (mt s1) ++ news
+             /\ Forall (fun p => m_source (snd p) = Some SDefault /\ m_is_group (snd p) = false
+                                 /\ fm_get (fst p) (mt_args (mt s1)) = None
+                                 /\ exists a, In a (c_args c) /\ a_id a = fst p) news)
+         /\ (forall j m, fm_get j (mt_args (mt s1)) = Some m -> fm_get j (mt_args (mt st)) = Some m)
+         /\ (forall j m', fm_get j (mt_args (mt s1)) = None -> fm_get j (mt_args (mt st)) = Some m' ->
+               m_source m' = Some SDefault /\ m_is_group m' = false))
+     /\ ((exists st_c s0, cmdline_phase fuel' c toks st0 = RErr e st_c
+            /\ (resolve_pending c st_c = ROk s0 \/ exists e0, resolve_pending c st_c = RErr e0 s0)
+            /\ mt_pending (mt s0) = None
+            /\ (add_env c s0 = ROk s1 \/ exists e1, add_env c s0 = RErr e1 s1)
+            /\ (add_defaults c s1 = ROk st \/ exists e2, add_defaults c s1 = RErr e2 st))
+         \/ (exists st_c, cmdline_phase fuel' c toks st0 = ROk st_c
+            /\ ((resolve_pending c st_c = RErr e st /\ s1 = st)
+                \/ exists s0, resolve_pending c st_c = ROk s0
+                     /\ ((add_env c s0 = RErr e st /\ s1 = st)
+                         \/ (add_env c s0 = ROk s1
+                             /\ (add_defaults c s1 = RErr e st
+                                 \/ (add_defaults c s1 = ROk st /\ validate c (mt st) <> VOk))))))).
+Proof. exact ignore_errors_pending_flushed. Qed.
+Print Assumptions C06_ignore_errors_pending_flushed.
+
+(** Non-vacuity: `p s help E` on [p] = [num_args(1..)] + [default_value("pd")] with [subcommand_precedence_over_arg]
+    and [ignore_errors]: the occurrence of [p] IS pending when `help E` fails, nothing is pending in the state handed
+    back, and its only entry is the command-line occurrence. *)
+Theorem C06_ignore_errors_pending_flushed_nonvacuous :
+  let c := build_self (flush_cmd1 <| c_bin_name := Some [112] |>) in
+  is_set s_ignore_errors c = true
+  /\ exists e st_c st,
+       get_matches_with (S (S (depth c))) c (tl flush_line1) ps_new = RErr e st
+       /\ cmdline_phase (S (depth c)) c (tl flush_line1) ps_new = RErr e st_c
+       /\ mt_pending (mt st_c) <> None /\ mt_pending (mt st) = None
+       /\ map (fun p => (fst p, m_source (snd p), m_raw (snd p))) (mt_args (mt st))
+          = [([112], Some SCmdLine, [[[115]]])].
+Proof. exact ignore_errors_pending_flushed_witness. Qed.
+Print Assumptions C06_ignore_errors_pending_flushed_nonvacuous.
+
+(** The finding, about the kept PRE-repair function ([get_matches_with_before_fix] = the error branch without the
+    leading [resolve_pending]):
+    (1) `p s help E` ([flush_cmd1]: positional [p] = [num_args(1..)], [default_value("pd")]; [ignore_errors],
+        [subcommand_precedence_over_arg], subcommand [a]) reported [p] = CommandLine with the occurrence groups
+        ["s"] and ["pd"] and a command-line index for the default value;
+    (2) `p a help x` ([flush_cmd2]: single-valued positional [p] with [default_value("d")] and an environment
+        variable set to "e"; [ignore_errors], subcommand [t]) reported [p] = DefaultValue ["d"]: the command-line
+        value "a" was lost.  The real crate answered the same before the repair (corpus/C06, corpus/C02). *)
+Theorem C06_pending_default_before_fix :
+  entry_view (parse_top_before_fix flush_cmd1 flush_line1) [112]
+    = Some (Some SCmdLine, [1; 2], [[[115]]; [[112; 100]]])
+  /\ entry_view (parse_top_before_fix flush_cmd2 flush_line2) [112]
+    = Some (Some SDefault, [2], [[[100]]]).
+Proof. exact pending_default_before_fix. Qed.
+Print Assumptions C06_pending_default_before_fix.
+
+(** The same inputs on the repaired model: exactly the command-line occurrence, labelled CommandLine. *)
+Theorem C06_pending_default_fixed :
+  entry_view (parse_top flush_cmd1 flush_line1) [112] = Some (Some SCmdLine, [1], [[[115]]])
+  /\ entry_view (parse_top flush_cmd2 flush_line2) [112] = Some (Some SCmdLine, [1], [[[97]]]).
+Proof. exact pending_default_fixed. Qed.
+Print Assumptions C06_pending_default_fixed.
